@@ -1,6 +1,7 @@
 /- Line-protocol driver for the C07 / C08 rows.  Floats travel as decimal UInt64 bit patterns, exact rationals as p/q.
-   pddrow  <e:p/q> <head demand expected pmin pnom elev a1 b1 c1 d1 a2 b2 c2 d2>      -> residual of `pddRow` (Float eval)
-   pddcurve <pmin pnom e p>        -> fraction a1 b1 c1 d1 a2 b2 c2 d2   (coefficients through the GENERATED spline code)
+   pddrow  <e:p/q> <head demand expected pmin pnom elev a1 b1 c1 d1 a2 b2 c2 d2 delta> -> residual of `pddRow` (Float eval)
+   pddcurve <pmin pnom e p>        -> fraction a1 b1 c1 d1 a2 b2 c2 d2 delta  (band width, spline end data and coefficients through
+                                      the GENERATED `pnomBuild` / `pddPolyBuild` / `cubicSpline`), or `reject` when a build refuses
    leakrow <tank:0|1> <elev:p/q> <h rate elev a b c d area cd>                          -> residual of `leakRowG`
    leakrate <cd area p>            -> rate a b c d
    leakops <op;op;...>   op = add:<area p/q>:<cd p/q>:<start|->:<end|->  | remove | fs | fe   -> state after each op, '|'-separated
@@ -25,7 +26,7 @@ def showF (x : Float) : String := toString x.toBits.toNat
 def showFs (xs : List Float) : String := " ".intercalate (xs.map showF)
 
 def stdIx : PddIx :=
-  { head := 0, demand := 1, expected := 0, pmin := 1, pnom := 2, elev := 3,
+  { head := 0, demand := 1, expected := 0, pmin := 1, pnom := 2, elev := 3, delta := 12,
     a1 := 4, b1 := 5, c1 := 6, d1 := 7, a2 := 8, b2 := 9, c2 := 10, d2 := 11 }
 
 def envOf (vars params : List Float) : Env Float :=
@@ -67,9 +68,9 @@ def handle (line : String) : String :=
   match line.trimAscii.toString.splitOn " " with
   | "pddrow" :: e :: rest =>
     match parseRat e, rest.mapM parseF with
-    | some e, some [h, d, ex, pmin, pnom, el, a1, b1, c1, d1, a2, b2, c2, d2] =>
-      let env := envOf [h, d] [ex, pmin, pnom, el, a1, b1, c1, d1, a2, b2, c2, d2]
-      showF (eval floatOps env (pddRow stdIx GenC07.pddDelta GenC07.pddSlope e))
+    | some e, some [h, d, ex, pmin, pnom, el, a1, b1, c1, d1, a2, b2, c2, d2, dl] =>
+      let env := envOf [h, d] [ex, pmin, pnom, el, a1, b1, c1, d1, a2, b2, c2, d2, dl]
+      showF (eval floatOps env (pddRow stdIx GenC07.pddSlope e))
     | _, _ => "bad-op"
   | ["pddcurve", pmin, pnom, e, p] =>
     match [pmin, pnom, e, p].mapM parseF with
@@ -77,11 +78,12 @@ def handle (line : String) : String :=
       let O := floatOps
       let δ := O.ofRat GenC07.pddDelta
       let s := O.ofRat GenC07.pddSlope
-      let i1 := GenC07.pddSplineIn1 O pmin pnom δ s e
-      let i2 := GenC07.pddSplineIn2 O pmin pnom δ s e
-      let k1 := GenC07.cubicSpline O i1.1 i1.2.1 i1.2.2.1 i1.2.2.2.1 i1.2.2.2.2.1 i1.2.2.2.2.2
-      let k2 := GenC07.cubicSpline O i2.1 i2.2.1 i2.2.2.1 i2.2.2.2.1 i2.2.2.2.2.1 i2.2.2.2.2.2
-      showFs (pddFrac O pmin pnom δ s e k1 k2 p :: (co4 k1 ++ co4 k2))
+      match GenC07.pnomBuild O pnom δ, GenC07.pddPolyBuild O pmin pnom δ s e with
+      | some _, some (d, i1, i2) =>
+        let k1 := GenC07.cubicSpline O i1.1 i1.2.1 i1.2.2.1 i1.2.2.2.1 i1.2.2.2.2.1 i1.2.2.2.2.2
+        let k2 := GenC07.cubicSpline O i2.1 i2.2.1 i2.2.2.1 i2.2.2.2.1 i2.2.2.2.2.1 i2.2.2.2.2.2
+        showFs (pddFrac O pmin pnom d s e k1 k2 p :: (co4 k1 ++ co4 k2 ++ [d]))
+      | _, _ => "reject"
     | _ => "bad-op"
   | "leakrow" :: tank :: elevq :: rest =>
     match parseRat elevq, rest.mapM parseF with
